@@ -78,6 +78,14 @@ func init() {
 			return err == nil, fmt.Sprint(err)
 		})
 	}
+	probes["O81"] = func() (bool, string) {
+		return guard(func() (bool, string) {
+			c, _ := ucfg.NewFrom([]interface{}{10, "x", 30})
+			arr := [3]int{1, 2, 3}
+			err := c.Unpack(&arr)
+			return err == nil || arr != [3]int{1, 2, 3}, fmt.Sprint(err, " ", arr)
+		})
+	}
 	probes["O80"] = func() (bool, string) {
 		return guard(func() (bool, string) {
 			c, _ := ucfg.NewFrom(map[string]interface{}{"a": 1})
